@@ -162,6 +162,9 @@ def run(ctx):
     # finish()/constuct(); the per-child decision tables of the methods that
     # fill and consume slots must agree with the reference.
     from rules.common import crosscheck
+    run.rule("C07.R10", "rendering a configuration error (str()) never "
+             "interprets user text as a format: every %-format / .format "
+             "template in the error classes is a literal", floor=3)
     run.rule("C07.R9", "slot kind safety: the methods that fill and consume "
              "slots agree on the kind of value per child (borrowed from "
              "C02.R1)", floor=4)
@@ -190,6 +193,7 @@ def run(ctx):
              floor=12)
     _r5_mappings(ctx)
     _r7_validator(ctx)
+    _r10_messages(ctx)
     _r8_unpack(ctx)
 
 
@@ -960,6 +964,57 @@ def _r7_validator(ctx):
 
 
 # ---------------------------------------------------------------------- R8
+
+def _r10_messages(ctx):
+    """The validator prints str(e): a __str__/__repr__ of the configuration
+    error family that %-formats (or .format()s) a template containing
+    anything but literal text raises on user text with a '%' or a brace."""
+    run, m, P = ctx.run, ctx.model, ctx.program
+    from zcstatic import absint as A
+
+    def nonliteral_templates(t, out):
+        if not isinstance(t, tuple) or not t:
+            return
+        if t[0] == "binop" and t[1] == "Mod" and not A.is_const(t[2]):
+            out.append("%s %% ..." % A.fmt(t[2])[:70])
+        if t[0] == "call" and isinstance(t[1], tuple) and t[1][0] == "attr" \
+                and t[1][2] in ("format", "format_map") \
+                and not A.is_const(t[1][1]):
+            out.append("%s.format(...)" % A.fmt(t[1][1])[:70])
+        if t[0] in ("closure", "lambda", "const"):
+            return
+        for x in t:
+            nonliteral_templates(x, out)
+
+    n = 0
+    for cq, c in sorted(m.classes.items()):
+        if not m.is_subclass(cq, CFGERR):
+            continue
+        for name in ("__str__", "__repr__"):
+            fn = c.methods.get(name)
+            if fn is None:
+                continue
+            n += 1
+            bad = []
+            for p in A.Interp(fn, P, try_raises=False).paths():
+                if p.outcome and p.outcome[0] == "return":
+                    nonliteral_templates(p.outcome[1], bad)
+                for e in p.effects:
+                    for x in e[1:]:
+                        nonliteral_templates(x, bad)
+            run.check(not bad, "C07.R10", fn.qualname, "format templates",
+                      "every template that is %-formatted or .format()ted is "
+                      "a literal; the attributes (message, value, url) are "
+                      "only ever arguments",
+                      "the template of a format operation contains data: %s "
+                      "-- a '%%' (or brace) in the offending user text makes "
+                      "str() of the error raise, and the validator ends in a "
+                      "traceback" % "; ".join(sorted(set(bad))[:3]),
+                      loc=m.loc(fn, fn.node))
+    if n < 2:
+        raise AnalysisError("anchor vanished: __str__ methods of the "
+                            "configuration error classes")
+
 
 def _r8_unpack(ctx):
     """a, b, c = s.split(sep, n): needs a guard establishing the number of
